@@ -146,7 +146,7 @@ int fault_check(const char *call)
 
 /* -------------------------------------------------------------- scheduler */
 #define MAXT 64
-enum tst { ST_NONE, ST_RUN, ST_LOCK, ST_WAIT, ST_JOIN, ST_DONE };
+enum tst { ST_NONE, ST_RUN, ST_LOCK, ST_WAIT, ST_JOIN, ST_DONE, ST_FLAG };
 struct th {
 	enum tst st;
 	void *obj;
@@ -174,6 +174,7 @@ int simk_sched_det;		/* 1: after the prefix, stay on the current thread, else lo
 static short dec[MAXDEC][2];
 static int ndec;
 
+static int uflag[32];	/* flags of the scenario program (a blocking work function waits for one) */
 struct lk { void *m; int owner; };
 #define MAXLK 256
 static struct lk L[MAXLK];
@@ -223,6 +224,8 @@ static int enabled(int i)
 		return t->retry || (t->deadline >= 0 && t->deadline <= vnow) || simk_sig_pending_unblocked(i);
 	case ST_JOIN:
 		return T[t->join_target].st == ST_DONE;
+	case ST_FLAG:
+		return uflag[(long)t->obj & 31];
 	default:
 		return 0;
 	}
@@ -503,6 +506,33 @@ static void yield_point(void)
 }
 
 void simk_yield(void) { yield_point(); }
+
+/* the scenario program blocks the calling thread until another thread sets
+ * flag n (used to keep work functions running for as long as a scenario needs) */
+void simk_flag_wait(int n)
+{
+	if (simk_passthrough)
+		return;
+	__real_pthread_mutex_lock(&M);
+	while (!uflag[n & 31]) {
+		T[me].st = ST_FLAG;
+		T[me].obj = (void *)(long)(n & 31);
+		pick_and_wait();
+	}
+	T[me].st = ST_RUN;
+	sync_log("acq", 5000 + (n & 31));
+	__real_pthread_mutex_unlock(&M);
+}
+
+void simk_flag_set(int n)
+{
+	__real_pthread_mutex_lock(&M);
+	sync_log("rel", 5000 + (n & 31));
+	uflag[n & 31] = 1;
+	simk_progress();
+	__real_pthread_mutex_unlock(&M);
+	yield_point();
+}
 
 struct boot { void *(*fn)(void *); void *arg; int id; };
 
